@@ -8,24 +8,26 @@ CHECKS = {}
 NOT_APPLICABLE = {}
 
 
-# families / histories added while the checks were tried against 102 seeded changes (DESIGN.md 10.5, 10.5b)
+# families / histories added while the checks were tried against 142 seeded changes (DESIGN.md 10.5, 10.5b, 10.5c)
 ADDED = {
     "C01": " Added: a third of the enumerated complexes are built with half of their sides declared as edges beforehand, shuffled and reversed.",
-    "C02": " Added: history 'extend' (the built mesh wrapped again, one vertex and one face appended behind the existing records, built again); the ENTRY set of the hard-edge flag, which is what the library's own consumers iterate over.",
-    "C03": " Added: meshes with an interior vertex numbered below border vertices (cube around its centre, full 2x2x2 Kuhn grid) and the same complexes a thousand times smaller.",
+    "C02": " Added: a construction after a first one that raised on the same data object; history 'extend' (the built mesh wrapped again, one vertex and one face appended behind the existing records, built again); the ENTRY set of the hard-edge flag, which is what the library's own consumers iterate over.",
+    "C03": " Added: a tetrahedron refined by five interior vertices numbered before its corners and the clause that boundary vertices keep the positions of their volume vertices; meshes with an interior vertex numbered below border vertices (cube around its centre, full 2x2x2 Kuhn grid) and the same complexes a thousand times smaller.",
     "C04": " Added: the two configuration switches that change a format's edge vocabulary (complete_edges_from_faces, export_edges_in_obj); loading a file that an independent writer put at a path mouette had saved to and loaded from before.",
     "C05": " Added: a value read from one entry written to another (then the first updated in place); values equal to the default of a non-castable type.",
-    "C08": "",
+    "C06": " Added: normalisation of a mesh first shrunk by 3e-9.",
+    "C08": " The scale family goes down to 10^-8.",
+    "C11": " Added: integer radii with points exactly on the sphere (tangent to splitting planes).",
     "C09": " A watchdog (time and memory) turns a call that does not return into a rejection.",
-    "C10": " Added: traversals of the same tree object abandoned half way before the judged ones.",
-    "C12": " Added: both normalisation modes of roots() asked for in a row.",
-    "C13": " Added: the face type asked for before the block and on the input afterwards; a cell split followed by a face split in one block (open finding).",
-    "C14": " Added: nearly (not exactly) vertical cylinders; the realised angle defect of the rings.",
+    "C10": " Added: the forest's edge list read twice and the trees' own lists afterwards; traversals of the same tree object abandoned half way before the judged ones.",
+    "C12": " Added: padding arrays with negative entries, integer-typed vectors; both normalisation modes of roots() asked for in a row.",
+    "C13": " Added: the stand-alone ear splitter; the face type asked for before the block and on the input afterwards; a cell split followed by a face split in one block (open finding).",
+    "C14": " Added: every generator called twice with the first result overwritten in place; cube corners; float-step-sensitive torus resolutions; nearly (not exactly) vertical cylinders; the realised angle defect of the rings.",
     "C15": " Added: the same detector object run twice, or first on a differently folded copy of the mesh.",
     "C16": " Added: every other cut of a case on the SAME mesh object; an icosphere stretched along z.",
-    "C17": " Added: the same mesh object embedded first with the other weights; interior edges of cotangent weight exactly zero are classed separately (open finding).",
+    "C17": " Added: a 41-vertex disk whose border ids iterate out of order, the circle's positions handed back as a custom boundary (rows honoured); the same mesh object embedded first with the other weights; interior edges of cotangent weight exactly zero are classed separately (open finding).",
     "C18": " Added: the same solver object first run with smoothing, then re-optimised with the option changed; the exact extension is computed for at most 8 free faces (32-bit integers).",
-    "C19": " Added: nets of degree 0 in either direction, parameters outside [0,1] by 1e-9, samples' normals after stored face normals and a quarter turn.",
+    "C19": " Added: every value returned by evaluate() overwritten by the caller before the judged evaluation; nets of degree 0 in either direction, parameters outside [0,1] by 1e-9, samples' normals after stored face normals and a quarter turn.",
 }
 
 
@@ -361,7 +363,12 @@ def main():
         "notes": "One ./bin/check <id> <tier> per property: stage A TLC model checking of the bounded specification, "
                  "stage B execution of TLC-generated and random cases on /repo's working tree, stage C TLC trace "
                  "validation of every recorded event. exit 0 = held, 1 = VIOLATION line(s), 2 = machinery failure. "
-                 "Known findings: /verif/known_findings.json.",
+                 "A call of the library that does not return (time / memory watchdog) is a rejection; a validator that is killed or runs out of memory is "
+                 "exit 2. Known findings: /verif/known_findings.json (18 open, each with a replay file under /verif/findings; 42 fixed by 'fix:' commits). "
+                 "Sub-clauses that are NOT decided by the specifications: C19 the share of samples per edge / face (statistical); C18 closed surfaces beyond "
+                 "modulus / quantum / sum (randomly started eigen-solver) and the OSQP-based variants (OSQP does not run in this sandbox); exact numeric oracles "
+                 "exist on integer-lattice inputs only (DESIGN.md 8). 142 seeded changes with their outcomes are under /verif/seeded (bin/seeded, bin/selftest); "
+                 "./bin/check X01 quick runs a specification of behaviour outside the listed properties (DESIGN.md 10.8).",
     }
     with open(os.path.join(HERE, "MANIFEST.json"), "w") as f:
         json.dump(man, f, indent=1)
